@@ -21,7 +21,12 @@ EXPLANATION = (
     "assessment is reached after a step exactly when the episode ended (truth table over terminated/truncated) with the step / return / "
     "epoch counters in their roles (identified by their update statements), the release loop runs exactly as many iterations as the "
     "assessment returned (position 1 of its result) with one epoch increment and one training step each, nothing else releases steps in "
-    "checkpoint mode, and the checkpoint copy is guarded by position 0 of the result of the assessment of this step."
+    "checkpoint mode, and the checkpoint copy is guarded by position 0 of the result of the assessment of this step.  Forms that are read like the "
+    "plain ones: comparisons spelled as functions of the operator module; isnan() of a quantity of the order model (False in every world: the "
+    "worlds order real numbers, the NaN world is outside the documented table and not decided); boolean locals bound in tuple assignments; stages "
+    "of the assessment moved into new methods / read-only properties / static methods of the window-state class (expanded at their use on the state "
+    "parameter); the assessment applied through a single functools.partial (arguments written out; a configured parameter that is not passed at "
+    "all is the literal default of the assessment's signature)."
 )
 TRUSTED = ["Python comparison semantics", "steps_per_episode >= 1 at an episode end (the window's step count is positive when steps are released)",
            "the epoch counter only grows (needed for `the switch happens once`, not decided)"]
@@ -51,12 +56,170 @@ def _const_under(cfg, e, assume, at):
     return None
 
 
+_CMP_FUNCS = {"operator.lt": "lt", "operator.le": "le", "operator.gt": "gt", "operator.ge": "ge", "operator.eq": "eq", "operator.ne": "ne",
+              "operator.__lt__": "lt", "operator.__le__": "le", "operator.__gt__": "gt", "operator.__ge__": "ge", "operator.__eq__": "eq", "operator.__ne__": "ne"}
+_NOT_FUNCS = {"operator.not_", "operator.__not__"}
+_TRUTH_FUNCS = {"operator.truth", "bool"}
+_ISNAN_FUNCS = {"math.isnan", "numpy.isnan", "jax.numpy.isnan", "cmath.isnan"}
+
+
+def _refine_formula(repo, nf, mi, f, ordered):
+    """Read the function spellings of the comparison operators inside an order formula: a truth-valued call atom `operator.lt(a, b)` (resolved
+    through the module's imports, whatever the alias) is the comparison a < b, `operator.not_(x)` the negation.  `isnan(x)` of a quantity of
+    the order model is False: the model's worlds are weak orderings of ordered reals (``ordered(p)`` says that p is such a quantity); the
+    NaN world is outside the documented table and is not decided here."""
+    k = f[0]
+    if k == "not":
+        return ("not", _refine_formula(repo, nf, mi, f[1], ordered))
+    if k in ("and", "or"):
+        return (k, tuple(_refine_formula(repo, nf, mi, g, ordered) for g in f[1]))
+    if k != "truth":
+        return f
+    a = f[1].single_atom()
+    m = nf.meta.get(a) if a else None
+    if not m or m.get("kws") or not isinstance(m.get("fn"), str):
+        return f
+    try:
+        q = repo.resolve_expr(mi, parse_expr(m["fn"])) or m["fn"]      # the normal form already names a module function by its resolved dotted name
+    except Exception:
+        q = m["fn"]
+    if m["fn"] in ("bool", "isnan"):
+        q = {"bool": "bool", "isnan": "math.isnan"}[m["fn"]]      # the normal form names a resolved library function (math / numpy / jax.numpy) by its short name
+    args = m.get("args", [])
+    if q in _CMP_FUNCS and len(args) == 2:
+        x, y = args
+        return {"lt": ("cmp", "lt", x, y), "gt": ("cmp", "lt", y, x), "le": ("not", ("cmp", "lt", y, x)), "ge": ("not", ("cmp", "lt", x, y)),
+                "eq": ("cmp", "eq", x, y), "ne": ("not", ("cmp", "eq", x, y))}[_CMP_FUNCS[q]]
+    if q in _NOT_FUNCS and len(args) == 1:
+        return ("not", _refine_formula(repo, nf, mi, ("truth", args[0]), ordered))
+    if q in _TRUTH_FUNCS and len(args) == 1:
+        return _refine_formula(repo, nf, mi, ("truth", args[0]), ordered)
+    if q in _ISNAN_FUNCS and len(args) == 1 and ordered(args[0]):
+        return ("const", False)
+    return f
+
+
+def _is_property(fn) -> bool:
+    return any(dotted(d) in ("property", "builtins.property") for d in fn.decorator_list)
+
+
+def _with_object_methods_inlined(repo, fn, qual: str, default_types: dict | None = None):
+    """Copy of ``fn`` in which the methods (and read-only properties) that a later change gave to the class of one of its parameters are
+    expanded at their calls / reads on that parameter, as the repository-wide helper expansion does for functions and `self` methods: the
+    receiver's class is read from the parameter's annotation (``default_types``: parameter -> class where the public signature fixes the
+    role), single-definition aliases of such a parameter are followed.  Methods of the recorded surface are left alone.  Returns None when
+    there is nothing to expand; raises AnalysisError when a call of such a method could not be expanded.  The original tree is not touched."""
+    from ..expand import Expander, clone, load_known
+    mi = fn._module
+    known = load_known()
+    a = fn.args
+    typed = {}
+    for p_ in a.posonlyargs + a.args + a.kwonlyargs:
+        ann, q = p_.annotation, None
+        if isinstance(ann, ast.Constant) and isinstance(ann.value, str):
+            try:
+                ann = parse_expr(ann.value)
+            except SyntaxError:
+                ann = None
+        if isinstance(ann, (ast.Name, ast.Attribute)):
+            try:
+                q = repo.resolve_expr(mi, ann)
+            except Exception:
+                q = None
+        if ann is None and default_types and p_.arg in default_types:
+            q = default_types[p_.arg]
+        if q:
+            try:
+                typed[p_.arg] = repo.canonical(q, repo.cls(q))
+            except Exception:
+                continue
+    stores = {}
+    for x in ast.walk(fn):
+        if isinstance(x, ast.Name) and isinstance(x.ctx, (ast.Store, ast.Del)):
+            stores[x.id] = stores.get(x.id, 0) + 1
+    typed = {k: v for k, v in typed.items() if k not in stores}
+    for x in ast.walk(fn):       # `state = checkpoint_state`: one definition, a plain copy of a typed parameter
+        if isinstance(x, ast.Assign) and len(x.targets) == 1 and isinstance(x.targets[0], ast.Name) and stores.get(x.targets[0].id) == 1 \
+                and isinstance(x.value, ast.Name) and x.value.id in typed and x in fn.body:
+            typed[x.targets[0].id] = typed[x.value.id]
+
+    def new_method(cq, attr):
+        try:
+            m = repo.method(cq, attr)
+        except Exception:
+            return None
+        if m is None or not isinstance(m[1], ast.FunctionDef) or f"{m[0]}.{attr}" in known:
+            return None
+        return m
+    if not any(isinstance(x, ast.Attribute) and isinstance(x.value, ast.Name) and x.value.id in typed and new_method(typed[x.value.id], x.attr) for x in ast.walk(fn)):
+        return None
+
+    class ObjectExpander(Expander):
+        def resolve(self, call, mi_, cls_qual, owner_qual):
+            f = call.func
+            if isinstance(f, ast.Attribute) and isinstance(f.value, ast.Name) and f.value.id in typed:
+                m = new_method(typed[f.value.id], f.attr)
+                if m is not None:
+                    if self._is_classmethod(m[1]) or _is_property(m[1]) != bool(getattr(call, "_property_read", False)) \
+                            or any(dotted(d) not in ("property", "builtins.property", "staticmethod", "builtins.staticmethod") for d in m[1].decorator_list):
+                        self.failed.append((owner_qual, f"{m[0]}.{f.attr}"))
+                        return None
+                    return f"{m[0]}.{f.attr}", m[1], repo.cls(m[0])._module, (None if self._is_static(m[1]) else f.value)
+            return super().resolve(call, mi_, cls_qual, owner_qual)
+
+        def _find_call(self, s, mi_, cls_qual, qual_, stack, own_only=True):
+            # a read of a property is a call of its getter without arguments
+            class P(ast.NodeTransformer):
+                def visit_Attribute(self_inner, n):
+                    self_inner.generic_visit(n)
+                    if isinstance(n.ctx, ast.Load) and isinstance(n.value, ast.Name) and n.value.id in typed:
+                        m = new_method(typed[n.value.id], n.attr)
+                        if m is not None and _is_property(m[1]):
+                            c = ast.copy_location(ast.Call(func=n, args=[], keywords=[]), n)
+                            c._property_read = True
+                            return c
+                    return n
+
+                def visit_Call(self_inner, n):
+                    if getattr(n, "_property_read", False):
+                        return n
+                    return self_inner.generic_visit(n)
+            for f_, v in ast.iter_fields(s):
+                if f_ in ("body", "orelse", "finalbody", "handlers"):
+                    continue
+                if isinstance(v, ast.AST):
+                    setattr(s, f_, P().visit(v))
+                elif isinstance(v, list):
+                    setattr(s, f_, [P().visit(x) if isinstance(x, ast.AST) and not isinstance(x, ast.stmt) else x for x in v])
+            return super()._find_call(s, mi_, cls_qual, qual_, stack, own_only)
+
+    new = clone(fn)
+    new._module = mi
+    new._parent = getattr(fn, "_parent", None)
+    ex = ObjectExpander(repo, known, max_depth=3)
+    try:
+        changed = ex.expand_function(new, mi, None, qual)
+    except RecursionError:
+        raise AnalysisError(f"{qual}: methods of the parameter's class could not be expanded (unrecognised form)")
+    left = [x for x in ast.walk(new) if isinstance(x, ast.Call) and (getattr(x, "_property_read", False) or (getattr(x, "_no_inline", False) and isinstance(x.func, ast.Attribute)
+            and isinstance(x.func.value, ast.Name) and x.func.value.id in typed and new_method(typed[x.func.value.id], x.func.attr)))]
+    if ex.failed or left or not changed:
+        what = ex.failed[0][1] if ex.failed else (short(left[0], 50) if left else "nothing")
+        raise AnalysisError(f"{qual}: the method `{what}` of the parameter's class could not be expanded at its call (unrecognised form)")
+    for parent in ast.walk(new):
+        for child in ast.iter_child_nodes(parent):
+            child._parent = parent
+    return new
+
+
 def _assess_table(ck, repo, nf):
     fn = repo.func(AQ)
     mi = fn._module
-    cfg = nf.cfg_of(fn)
     params = param_names(fn)
     ck.need(len(params) >= 7, f"{AQ}: signature changed (anchor vanished)")
+    # stages that a later change moved into methods / properties of the window-state class are read at their calls on the state parameter
+    fn = _with_object_methods_inlined(repo, fn, AQ, {params[0]: "rl_blox.blox.checkpointing.CheckpointState"}) or fn
+    cfg = nf.cfg_of(fn)
     S, SPE, RET, EPOCH, RW, MEWC, SBC = params[:7]     # roles by position (public signature)
     cls = repo.cls("rl_blox.blox.checkpointing.CheckpointState")
     fields = [n.target.id for n in cls.body if isinstance(n, ast.AnnAssign) and isinstance(n.target, ast.Name)]
@@ -95,6 +258,11 @@ def _assess_table(ck, repo, nf):
     SWC = ("and", (("cmp", "lt", env0[EPOCH], env0[SBC]), ("not", ("cmp", "lt", env0[EPOCH] + t1, env0[SBC]))))
     RESET_MIN = None
     # ---- paths ---------------------------------------------------------------------------------------------------------------------
+    ordered_atoms = base_atoms | set(model.derived)
+
+    def formula(e, sc, names):
+        return _refine_formula(repo, nf, mi, order_formula(nf, e, sc, names), lambda p_: bool(p_.atoms()) and p_.atoms() <= ordered_atoms)
+
     paths = enumerate_paths(cfg, cfg.entry, {cfg.exit})
     ck.floor("acyclic-paths", len(paths), 5)
     summaries = []
@@ -106,20 +274,36 @@ def _assess_table(ck, repo, nf):
         for nid, lab in p:
             n = cfg.nodes[nid]
             if n.kind == "test" and hasattr(n.ast, "test") and lab in (True, False):
-                f = order_formula(nf, n.ast.test, pe.scope(), names)
+                f = formula(n.ast.test, pe.scope(), names)
                 conds.append(f if lab else ("not", f))
-            if n.kind == "stmt" and isinstance(n.ast, ast.Assign) and len(n.ast.targets) == 1 and isinstance(n.ast.targets[0], ast.Name):
-                v = n.ast.value
-                if isinstance(v, (ast.Compare, ast.BoolOp)) or (isinstance(v, ast.UnaryOp) and isinstance(v.op, ast.Not)) or (isinstance(v, ast.Constant) and isinstance(v.value, bool)) \
-                        or (isinstance(v, ast.Name) and v.id in names):
-                    names[n.ast.targets[0].id] = order_formula(nf, v, pe.scope(), names)
-                else:
-                    names.pop(n.ast.targets[0].id, None)
+            if n.kind == "stmt" and isinstance(n.ast, ast.Assign) and len(n.ast.targets) == 1:
+                # boolean locals carry their formula (evaluated in the state at the assignment); `a, b = e1, e2` is read element by element
+                tg, v = n.ast.targets[0], n.ast.value
+                pairs = [(tg, v)] if isinstance(tg, ast.Name) else \
+                    list(zip(tg.elts, v.elts)) if isinstance(tg, (ast.Tuple, ast.List)) and isinstance(v, (ast.Tuple, ast.List)) and len(tg.elts) == len(v.elts) else []
+                upd = {}
+                for tg_, v_ in pairs:
+                    if not isinstance(tg_, ast.Name):
+                        continue
+                    f_ = None
+                    if isinstance(v_, (ast.Compare, ast.BoolOp)) or (isinstance(v_, ast.UnaryOp) and isinstance(v_.op, ast.Not)) or (isinstance(v_, ast.Constant) and isinstance(v_.value, bool)) \
+                            or (isinstance(v_, ast.Name) and v_.id in names):
+                        f_ = formula(v_, pe.scope(), names)
+                    elif isinstance(v_, ast.Call):
+                        # a predicate written as a call (`operator.lt(a, b)`, `math.isnan(x)`): kept only when it was read as a formula
+                        f_ = formula(v_, pe.scope(), names)
+                        f_ = None if f_[0] == "truth" else f_
+                    upd[tg_.id] = f_
+                for k_, f_ in upd.items():
+                    if f_ is None:
+                        names.pop(k_, None)
+                    else:
+                        names[k_] = f_
             if n.kind == "stmt" and isinstance(n.ast, ast.Return):
                 ck.need(n.ast.value is not None, f"{AQ}: bare return")
                 rv = n.ast.value
                 if isinstance(rv, ast.Tuple) and len(rv.elts) == 2:
-                    flag_f = order_formula(nf, strip_wrappers(rv.elts[0]), pe.scope(), names)      # `bool(flag)` is the flag
+                    flag_f = formula(strip_wrappers(rv.elts[0]), pe.scope(), names)      # `bool(flag)` is the flag
                     ret = (flag_f, pe.ev(rv.elts[1]))
                 else:
                     val = pe.ev(rv)
@@ -498,23 +682,74 @@ def _trip_leaves(cfg, name: str, at: int, call, aliases: dict, depth: int = 0):
     return out
 
 
+def _callee_default(fn, param: str):
+    """Default expression of a parameter of ``fn``, or None."""
+    a = fn.args
+    pos = a.posonlyargs + a.args
+    d = dict(zip([x.arg for x in pos][len(pos) - len(a.defaults):], a.defaults))
+    d.update({x.arg: v for x, v in zip(a.kwonlyargs, a.kw_defaults) if v is not None})
+    return d.get(param)
+
+
+def _assessment_application(repo, cfg, mi, n, c):
+    """When the call ``c`` (in CFG node ``n``) applies the assessment function: (the application with all its arguments written out, {id(argument
+    expression): node where it was evaluated earlier}); None otherwise.  Read: the direct call, and the call of a local whose one reaching
+    definition is `functools.partial(assessment, *leading, **fixed)` - partial(f, a, k=v)(x, k2=w) is f(a, x, k=v, k2=w), keywords given at the
+    call override the fixed ones; the leading / fixed arguments were evaluated where the partial was created."""
+    if not isinstance(c.func, (ast.Name, ast.Attribute)):
+        return None
+    try:
+        if repo.resolve_expr(mi, c.func) == AQ:
+            return c, {}
+    except Exception:
+        return None
+    if not isinstance(c.func, ast.Name):
+        return None
+    ds = cfg.defs_of(n.id, c.func.id)
+    if len(ds) != 1 or ds[0].kind != "assign" or not isinstance(ds[0].value, ast.Call):
+        return None
+    pc = ds[0].value
+    try:
+        if not (isinstance(pc.func, (ast.Name, ast.Attribute)) and repo.resolve_expr(mi, pc.func) == "functools.partial" and pc.args
+                and isinstance(pc.args[0], (ast.Name, ast.Attribute)) and repo.resolve_expr(mi, pc.args[0]) == AQ):
+            return None
+    except Exception:
+        return None
+    if any(isinstance(x, ast.Starred) for x in pc.args + c.args) or any(k.arg is None for k in pc.keywords + c.keywords):
+        raise AnalysisError(f"{TQ}: the assessment is applied through a partial with star arguments (unrecognised form)")
+    at_call = {k.arg for k in c.keywords}
+    merged = ast.copy_location(ast.Call(func=pc.args[0], args=list(pc.args[1:]) + list(c.args), keywords=[k for k in pc.keywords if k.arg not in at_call] + list(c.keywords)), c)
+    early = {id(x): ds[0].node for x in list(pc.args[1:]) + [k.value for k in pc.keywords]}
+    return merged, early
+
+
 def _td7_loop(ck, repo, nf, afn):
     L = find_env_loop(repo, TQ)
     cfg, mi, fn = L.cfg, L.mi, L.fn
     aparams = param_names(afn)
     S, SPE, RET, EPOCH, RW, MEWC, SBC = aparams[:7]
-    calls = [(n, c) for n in cfg.nodes if n.ast is not None and n.kind == "stmt" for c in ast.walk(n.ast)
-             if isinstance(c, ast.Call) and isinstance(c.func, (ast.Name, ast.Attribute)) and repo.resolve_expr(mi, c.func) == AQ]
+    # a lambda-valued local whose every use was expanded at its call is no longer referenced: the call inside its body is not an application here
+    loads = {x.id for x in ast.walk(fn) if isinstance(x, ast.Name) and isinstance(x.ctx, ast.Load)}
+
+    def dead_lambda(st):
+        return isinstance(st, ast.Assign) and len(st.targets) == 1 and isinstance(st.targets[0], ast.Name) and isinstance(st.value, ast.Lambda) and st.targets[0].id not in loads
+    calls = [(n, c) + m_ for n in cfg.nodes if n.ast is not None and n.kind == "stmt" and not dead_lambda(n.ast) for c in ast.walk(n.ast) if isinstance(c, ast.Call)
+             for m_ in [_assessment_application(repo, cfg, mi, n, c)] if m_ is not None]
     ck.need(len(calls) == 1, f"{TQ}: expected one assessment call, found {len(calls)}")
-    n, c = calls[0]
+    # c: the call in the loop (its result is what the loop consumes); c_bound: the same application with the arguments a `partial` supplied
+    # earlier written out; early: id(argument expression) -> node where it was evaluated (the creation of the partial)
+    n, c, c_bound, early = calls[0]
     body = cfg.loop_body_nodes(L.outer_header)
-    b = bind_call(afn, c)
+    b = bind_call(afn, c_bound)
     params_t = set(param_names(fn))
     # the documented options of train_td7, by their place in the recorded signature (a renamed parameter keeps its role)
     UC, LS = _current_param(fn, TQ, "use_checkpoints"), _current_param(fn, TQ, "learning_starts")
     uc_true = {UC: True} if UC else {}
     at_default = {p: d for q, p, d in (getattr(repo, "specialised", None) or []) if q == TQ}     # options the specialise pass replaced by their defaults
     # ---- argument roles -------------------------------------------------------------------------------------------------------
+    for role in (SPE, RET, EPOCH):
+        if b.get(role) is not None and id(b.get(role)) in early:
+            raise AnalysisError(f"{TQ}: `{role}` of the assessment is bound when the partial application is created, not at the call (unrecognised form)")
     a_spe, a_ret, a_epoch = (strip_wrappers(x) if x is not None else None for x in (b.get(SPE), b.get(RET), b.get(EPOCH)))
     for role, arg, wantk in (("steps_per_episode", a_spe, "steps"), ("episode_return", a_ret, "return")):
         ck.need(isinstance(arg, ast.Name), f"{TQ}: {role} argument `{short(arg) if arg is not None else None}` is not a variable (unrecognised form)")
@@ -531,7 +766,12 @@ def _td7_loop(ck, repo, nf, afn):
     for role in (RW, MEWC, SBC):
         arg = b.get(role)
         want_p = _current_param(fn, TQ, documented[role])
-        src = _param_source(cfg, arg, n.id) if arg is not None else None
+        src = _param_source(cfg, arg, early.get(id(arg), n.id)) if arg is not None else None
+        if arg is None and role not in b:
+            # not passed at all: the assessment runs with the default its own signature gives that parameter
+            dflt = _callee_default(afn, role)
+            if isinstance(dflt, ast.Constant) and isinstance(dflt.value, (int, float)) and not isinstance(dflt.value, bool):
+                arg, src = ast.Name(id=f"<not passed: default {dflt.value!r} of the assessment>", ctx=ast.Load()), ("const", dflt.value)
         if src is not None and src[0] == "const":
             # an option that was added / renamed after the signatures were recorded is read at its default (specialise pass): the literal is that option
             same = [p for p, d in at_default.items() if _same_number(d, src[1])]
@@ -546,7 +786,7 @@ def _td7_loop(ck, repo, nf, afn):
               "" if ok else f"the configured `{want_p}` must be passed through", loc(mi, c))
     st_arg = b.get(S)
     ck.need(isinstance(st_arg, ast.Name), f"{TQ}: window state argument `{short(st_arg) if st_arg is not None else None}` is not a variable (unrecognised form)")
-    st_defs = cfg.defs_of(n.id, st_arg.id)
+    st_defs = cfg.defs_of(early.get(id(st_arg), n.id), st_arg.id)
     ck.need(len(st_defs) >= 1, f"{TQ}: no definition of the window state `{st_arg.id}` reaches the assessment (unrecognised form)")
     st_in = [d for d in st_defs if d.node in body]
     # evidence of a forgotten window: a definition inside the loop that constructs a fresh state; any other rebinding is not read
@@ -786,6 +1026,22 @@ def run(ck, repo: Repo, tier: str):
 
 
 _C, _T = "rl_blox/blox/checkpointing.py", "rl_blox/algorithm/td7.py"
+_ASSESS_CALL = '                update_checkpoint, training_steps = (\n                    assess_performance_and_checkpoint(\n                        checkpoint_state,\n                        steps_per_episode,\n                        accumulated_reward,\n                        epoch,\n                        reset_weight,\n                        max_episodes_when_checkpointing,\n                        steps_before_checkpointing,\n                    )\n                )\n'
+# a decomposition of the assessment into methods / a property of the window-state class (used by the overlays below)
+_STATE_METHODS = (
+    ("import dataclasses\n", "import dataclasses\nimport typing\n"),
+    ('    """Best minimum return observed for any previous actor."""\n',
+     '    """Best minimum return observed for any previous actor."""\n\n'
+     '    def fold(self, n_steps: int, ret: float) -> None:\n        self.episodes_since_udpate = self.episodes_since_udpate + 1\n        self.timesteps_since_upate = self.timesteps_since_upate + n_steps\n'
+     '        if ret < self.min_return:\n            self.min_return = ret\n\n'
+     '    @property\n    def below_best(self) -> bool:\n        return self.best_min_return > self.min_return\n\n'
+     '    def rearm(self) -> None:\n        self.min_return = 1e8\n        self.timesteps_since_upate = 0\n        self.episodes_since_udpate = 0\n'),
+    ("    checkpoint_state.episodes_since_udpate += 1\n    checkpoint_state.timesteps_since_upate += steps_per_episode\n    checkpoint_state.min_return = min(\n        checkpoint_state.min_return, episode_return\n    )\n",
+     "    checkpoint_state.fold(steps_per_episode, episode_return)\n"),
+    ("        # Reset checkpoint monitoring.\n        checkpoint_state.episodes_since_udpate = 0\n        checkpoint_state.timesteps_since_upate = 0\n        checkpoint_state.min_return = 1e8\n",
+     "        checkpoint_state.rearm()\n"),
+    ("    if checkpoint_state.min_return < checkpoint_state.best_min_return:", "    if checkpoint_state.below_best:"),
+)
 MUTANTS = [
     {"id": "c15-branchy-max", "file": _C, "rule": "R", "find": "    checkpoint_state.min_return = min(\n        checkpoint_state.min_return, episode_return\n    )", "replace": "    if episode_return > checkpoint_state.min_return:\n        checkpoint_state.min_return = episode_return"},
     {"id": "c15-td7-result-swapped", "file": _T, "rule": "R5", "find": "                update_checkpoint, training_steps = (\n                    assess_performance_and_checkpoint(", "replace": "                training_steps, update_checkpoint = (\n                    assess_performance_and_checkpoint("},
@@ -824,6 +1080,26 @@ MUTANTS = [
     {"id": "c15-td7-copy-unconditional", "file": _T, "rule": "R5", "find": "                if update_checkpoint:\n                    hard_target_net_update(policy, checkpoint)", "replace": "                if True:\n                    hard_target_net_update(policy, checkpoint)"},
     {"id": "c15-td7-countdown-off", "file": _T, "rule": "R5", "find": "            for delayed_train_step_idx in range(1, training_steps + 1):", "replace": "            for delayed_train_step_idx in range(training_steps, 1, -1):"},
     {"id": "c15-td7-assess-every-step", "file": _T, "rule": "R5", "find": "            if (termination or truncated) and use_checkpoints:", "replace": "            if use_checkpoints:"},
+    # --- function spellings of comparisons, NaN guards, boolean locals in tuple assignments, stages moved into methods of the state class ---
+    {"id": "c15-operator-le-cut", "file": _C, "rule": "R", "edits": [("import dataclasses\n", "import dataclasses\nimport operator as op\n"),
+        ("    if checkpoint_state.min_return < checkpoint_state.best_min_return:", "    if op.le(checkpoint_state.min_return, checkpoint_state.best_min_return):")]},
+    {"id": "c15-operator-ne-window", "file": _C, "rule": "R", "edits": [("import dataclasses\n", "import dataclasses\nfrom operator import ne\n"),
+        ("    elif (\n        checkpoint_state.episodes_since_udpate\n        == checkpoint_state.max_episodes_before_update\n    ):", "    elif ne(checkpoint_state.episodes_since_udpate, checkpoint_state.max_episodes_before_update):")]},
+    {"id": "c15-nan-guard-cuts-ties", "file": _C, "rule": "R", "edits": [("import dataclasses\n", "import dataclasses\nimport math\n"),
+        ("    if checkpoint_state.min_return < checkpoint_state.best_min_return:", "    if math.isnan(episode_return) or not (checkpoint_state.min_return > checkpoint_state.best_min_return):")]},
+    {"id": "c15-nan-flag-local-cuts-ties", "file": _C, "rule": "R", "edits": [("import dataclasses\n", "import dataclasses\nfrom math import isnan\n"),
+        ("    if checkpoint_state.min_return < checkpoint_state.best_min_return:", "    broken = isnan(episode_return)\n    if broken or checkpoint_state.min_return <= checkpoint_state.best_min_return:")]},
+    {"id": "c15-tuple-flags-le", "file": _C, "rule": "R", "edits": [("    update_checkpoint = False\n    training_steps = 0\n", "    stop_early, update_checkpoint, training_steps = (checkpoint_state.min_return <= checkpoint_state.best_min_return), False, 0\n"),
+        ("    if checkpoint_state.min_return < checkpoint_state.best_min_return:", "    if stop_early:")]},
+    {"id": "c15-state-methods-rearm-keeps-steps", "file": _C, "rule": "R2", "edits": [_STATE_METHODS[0], (_STATE_METHODS[1][0], _STATE_METHODS[1][1].replace("        self.timesteps_since_upate = 0\n", "")), _STATE_METHODS[2], _STATE_METHODS[3], _STATE_METHODS[4]]},
+    {"id": "c15-state-methods-property-le", "file": _C, "rule": "R", "edits": [_STATE_METHODS[0], (_STATE_METHODS[1][0], _STATE_METHODS[1][1].replace("return self.best_min_return > self.min_return", "return self.best_min_return >= self.min_return")), _STATE_METHODS[2], _STATE_METHODS[3], _STATE_METHODS[4]]},
+    {"id": "c15-state-methods-fold-last-episode-only", "file": _C, "rule": "R", "edits": [_STATE_METHODS[0], (_STATE_METHODS[1][0], _STATE_METHODS[1][1].replace("self.timesteps_since_upate = self.timesteps_since_upate + n_steps", "self.timesteps_since_upate = n_steps")), _STATE_METHODS[2], _STATE_METHODS[3], _STATE_METHODS[4]]},
+    {"id": "c15-td7-partial-config-swapped", "file": _T, "rule": "R5", "edits": [("    checkpoint_state = CheckpointState()\n", "    checkpoint_state = CheckpointState()\n    assess_window = partial(assess_performance_and_checkpoint, checkpoint_state, steps_before_checkpointing=max_episodes_when_checkpointing, "
+        "max_episodes_when_checkpointing=steps_before_checkpointing, reset_weight=reset_weight)\n"), (_ASSESS_CALL, "                update_checkpoint, training_steps = assess_window(steps_per_episode, accumulated_reward, epoch)\n")]},
+    {"id": "c15-td7-partial-threshold-literal", "file": _T, "rule": "R5", "edits": [("    checkpoint_state = CheckpointState()\n", "    checkpoint_state = CheckpointState()\n    assess_window = partial(assess_performance_and_checkpoint, checkpoint_state, steps_before_checkpointing=750_000, "
+        "max_episodes_when_checkpointing=max_episodes_when_checkpointing, reset_weight=reset_weight)\n"), (_ASSESS_CALL, "                update_checkpoint, training_steps = assess_window(steps_per_episode, accumulated_reward, epoch)\n")]},
+    {"id": "c15-td7-partial-state-per-episode", "file": _T, "rule": "R5", "edits": [(_ASSESS_CALL, "                checkpoint_state = CheckpointState()\n                assess_window = partial(assess_performance_and_checkpoint, checkpoint_state)\n"
+        "                update_checkpoint, training_steps = assess_window(steps_per_episode, accumulated_reward, epoch, reset_weight, max_episodes_when_checkpointing, steps_before_checkpointing)\n")]},
 ]
 BENIGN = [
     {"id": "c15-b-branchy-min", "file": _C, "find": "    checkpoint_state.min_return = min(\n        checkpoint_state.min_return, episode_return\n    )", "replace": "    if episode_return < checkpoint_state.min_return:\n        checkpoint_state.min_return = episode_return"},
@@ -855,4 +1131,25 @@ BENIGN = [
     {"id": "c15-b-td7-countdown", "file": _T, "edits": [("            for delayed_train_step_idx in range(1, training_steps + 1):\n", "            for delayed_train_step_idx in range(training_steps, 0, -1):\n"), ("                        step + 1 - training_steps + delayed_train_step_idx\n", "                        step + 2 - delayed_train_step_idx\n")]},
     {"id": "c15-b-td7-countdown-while", "file": _T, "edits": [("            for delayed_train_step_idx in range(1, training_steps + 1):\n                epoch += 1\n", "            pending = training_steps\n            while pending > 0:\n                pending -= 1\n                delayed_train_step_idx = training_steps - pending\n                epoch += 1\n")]},
     {"id": "c15-b-return-bool-int", "file": _C, "find": "    return update_checkpoint, training_steps\n", "replace": "    return bool(update_checkpoint), int(training_steps)\n"},
+    # --- function spellings of comparisons, NaN guards, boolean locals in tuple assignments, stages moved into methods of the state class ---
+    {"id": "c15-b-operator-gt-cut", "file": _C, "edits": [("import dataclasses\n", "import dataclasses\nimport operator as op\n"),
+        ("    if checkpoint_state.min_return < checkpoint_state.best_min_return:", "    if op.gt(checkpoint_state.best_min_return, checkpoint_state.min_return):")]},
+    {"id": "c15-b-operator-eq-not", "file": _C, "edits": [("import dataclasses\n", "import dataclasses\nfrom operator import eq, not_, ge\n"),
+        ("    elif (\n        checkpoint_state.episodes_since_udpate\n        == checkpoint_state.max_episodes_before_update\n    ):", "    elif not_(not_(eq(checkpoint_state.max_episodes_before_update, checkpoint_state.episodes_since_udpate))):"),
+        ("    if training_steps > 0:", "    if ge(training_steps, 1):")]},
+    {"id": "c15-b-nan-guard-strict", "file": _C, "edits": [("import dataclasses\n", "import dataclasses\nimport math\n"),
+        ("    if checkpoint_state.min_return < checkpoint_state.best_min_return:", "    if not math.isnan(checkpoint_state.min_return) and checkpoint_state.min_return < checkpoint_state.best_min_return:")]},
+    {"id": "c15-b-nan-flag-local-strict", "file": _C, "edits": [("import dataclasses\n", "import dataclasses\nfrom math import isnan\n"),
+        ("    if checkpoint_state.min_return < checkpoint_state.best_min_return:", "    finite_window = not isnan(checkpoint_state.min_return)\n    if finite_window and not (checkpoint_state.min_return >= checkpoint_state.best_min_return):")]},
+    {"id": "c15-b-tuple-flags", "file": _C, "edits": [("    update_checkpoint = False\n    training_steps = 0\n", "    stop_early, update_checkpoint, training_steps = (checkpoint_state.min_return < checkpoint_state.best_min_return), False, 0\n"),
+        ("    if checkpoint_state.min_return < checkpoint_state.best_min_return:", "    if stop_early:")]},
+    {"id": "c15-b-state-methods", "file": _C, "edits": list(_STATE_METHODS)},
+    {"id": "c15-b-state-methods-untyped-alias", "file": _C, "edits": [_STATE_METHODS[0], _STATE_METHODS[1], (_STATE_METHODS[2][0], "    window = checkpoint_state\n    window.fold(ret=episode_return, n_steps=steps_per_episode)\n"),
+        (_STATE_METHODS[3][0], _STATE_METHODS[3][1].replace("checkpoint_state.rearm()", "window.rearm()")), ("    checkpoint_state: CheckpointState,\n", "    checkpoint_state,\n"),
+        (_STATE_METHODS[4][0], "    if window.below_best:")]},
+    {"id": "c15-b-td7-partial-config", "file": _T, "edits": [("    checkpoint_state = CheckpointState()\n", "    checkpoint_state = CheckpointState()\n    assess_window = partial(assess_performance_and_checkpoint, checkpoint_state, steps_before_checkpointing=steps_before_checkpointing, "
+        "max_episodes_when_checkpointing=max_episodes_when_checkpointing, reset_weight=reset_weight)\n"), (_ASSESS_CALL, "                update_checkpoint, training_steps = assess_window(steps_per_episode, accumulated_reward, epoch)\n")]},
+    {"id": "c15-b-td7-partial-state-only", "file": _T, "edits": [("    checkpoint_state = CheckpointState()\n", "    checkpoint_state = CheckpointState()\n    assess_window = partial(assess_performance_and_checkpoint, checkpoint_state)\n"),
+        (_ASSESS_CALL, "                outcome = assess_window(steps_per_episode, accumulated_reward, epoch, steps_before_checkpointing=steps_before_checkpointing, reset_weight=reset_weight, max_episodes_when_checkpointing=max_episodes_when_checkpointing)\n"
+                       "                update_checkpoint, training_steps = outcome\n")]},
 ]
